@@ -511,7 +511,7 @@ def pair3(ctx: Ctx) -> List[Ob]:
             t = cfg.stmt_node_of(node, ctx.model.parent_of)
             newv = norm(node.value) if isinstance(node, (ast.Assign, ast.AnnAssign)) and node.value is not None else "?"
             rem = P_or(P_effect(si, ["delitem", "pop"], ["_nodes_by_data_id"]), P_effect(si, ["remove", "pop", "delitem"], [SLOT]))
-            ok1 = cfg.dominated_by(t, rem, may_raise=lambda n: True)
+            ok1 = cfg.dominated_by(t, rem, may_raise=lambda n: True, exc_through=True)
             obs.append(ctx.ob("PAIR-3", ["C02"], f, f"{norm(node)}: old slot is left first", node, ok1,
                               "" if ok1 else "the node stays listed under its old data_id (stale lookup)"))
 
@@ -523,7 +523,7 @@ def pair3(ctx: Ctx) -> List[Ob]:
                             return True
                 return False
 
-            ok2 = cfg.dominated_by(t, add_new, may_raise=lambda n: True)
+            ok2 = cfg.dominated_by(t, add_new, may_raise=lambda n: True, exc_through=True)
             obs.append(ctx.ob("PAIR-3", ["C02", "C04"], f, f"{norm(node)}: listed under the new key `{newv}` first", node, ok2,
                               "" if ok2 else "the node is not findable under its new data_id (or is filed under another key)"))
     return obs
